@@ -2885,17 +2885,19 @@ where
                 if let PeerScoreState::Active(peer_score) = &mut self.peer_score {
                     peer_score.graft(&peer_id, topic.clone());
                 }
-
-                // inform the handler of the peer being added to the mesh
-                // If the peer did not previously exist in any mesh, inform the handler
-                peer_added_to_mesh(
-                    peer_id,
-                    vec![topic],
-                    &self.mesh,
-                    &mut self.events,
-                    &self.connected_peers,
-                );
             }
+
+            // Inform the handler of the peer being added to the mesh. The heartbeat has already
+            // updated all meshes, so all topics grafted in this round must be passed together:
+            // asked one topic at a time, every other newly grafted topic would look like a mesh
+            // the peer was already part of and no `JoinedMesh` would be sent.
+            peer_added_to_mesh(
+                peer_id,
+                topics.iter().collect(),
+                &self.mesh,
+                &mut self.events,
+                &self.connected_peers,
+            );
             let rpc_msgs = topics.iter().map(|topic_hash| {
                 RpcOut::Graft(Graft {
                     topic_hash: topic_hash.clone(),
